@@ -239,6 +239,14 @@ func (v Val) Value() any {
 			d = 1
 		}
 		return ptrTo(v.Elems[0].Value(), d)
+	case "zstack": // a zero-valued Stack stored as a plain value
+		return stackage.Stack{}
+	case "zcond":
+		return stackage.Condition{}
+	case "nilsp": // nil pointers to the library's own types: they satisfy its interfaces but have nothing behind them
+		return (*stackage.Stack)(nil)
+	case "nilcp":
+		return (*stackage.Condition)(nil)
 	case "tnil": // a typed nil pointer: an interface value that is NOT nil (an element like any other)
 		switch v.Depth {
 		case 2:
